@@ -9,4 +9,7 @@ NOTES = ("Every check: (1) rebuilds and re-checks the property theorems in coq/t
 NOT_YET = {}
 CHECKS = {}
 for f in sorted(glob.glob(os.path.join(HERE, "registry.d", "C*.json"))):
-    CHECKS[os.path.basename(f)[:-5]] = json.load(open(f))
+    _r = json.load(open(f))
+    if _r.get("text", "").strip().lower() in ("", "in progress"):
+        continue        # builder has not finished: not claimed
+    CHECKS[os.path.basename(f)[:-5]] = _r
